@@ -125,6 +125,10 @@ def main(argv=None):
   ap.add_argument('--no-shrink', action='store_true')
   args = ap.parse_args(argv)
   prop = args.prop.upper()
+  if prop == 'SELFTEST':
+    return subprocess.call(
+        [PY, os.path.join(VERIF, 'simkit', 'selftest.py'), '--determinism'],
+        env=child_env())
   if prop not in registry.CHECKS:
     print(f'HARNESS-ERROR unknown property {prop}')
     return 2
@@ -246,11 +250,13 @@ def main(argv=None):
     raw = base + '.raw.json'
     json.dump(rec, open(raw, 'w'))
     verdict = confirm(raw, cpu=cpus[0])
-    if verdict is None or not verdict['reproduced'] or not verdict['digest_matches']:
+    if verdict is None or not verdict['reproduced']:
       harness_errors.append(
-          f'violation {sig} (seed {rec["seed"]}) did not replay identically: '
-          f'{verdict}')
+          f'violation {sig} (seed {rec["seed"]}) did not replay: {verdict}')
       continue
+    if not verdict['digest_matches']:
+      print(f'NOTE: {sig} (seed {rec["seed"]}) replays with the same violation '
+            'but a different event-log digest (a determinism leak in the harness)')
     final = base + '.json'
     if not args.no_shrink and handled < 4:
       try:
